@@ -51,7 +51,7 @@ def _bind(ctx: Ctx, cls: ClassInfo, args: Sequence[Any], kwargs: Dict[str, Any])
     return out
 
 
-def _hook(ctx: Ctx, run: BuilderRun, mod: Any, valid_subject: bool, valid_service: bool) -> Any:
+def _hook(ctx: Ctx, run: BuilderRun, mod: Any, valid_subject: bool, valid_service: bool, base_hook: Any = None) -> Any:
     repo = ctx.repo
 
     def record_models(e: ast.expr, f: Folder) -> Any:
@@ -124,25 +124,29 @@ def _hook(ctx: Ctx, run: BuilderRun, mod: Any, valid_subject: bool, valid_servic
         r = record_models(e, f)
         if r is not NotImplemented:
             return r
+        if base_hook is not None:
+            r = base_hook(e, f)
+            if r is not NotImplemented:
+                return r
         return base(e, f)
 
     return ctor_hook(ctx, module_call_hook(ctx, mod, [], [], record=[], base_hook=both))
 
 
-def make_builder(ctx: Ctx, definition: Optional[Sym] = None, allow_unregulated: bool = False, valid_subject: bool = True, valid_service: bool = True) -> Tuple[Any, BuilderRun, Any]:
+def make_builder(ctx: Ctx, definition: Optional[Sym] = None, allow_unregulated: bool = False, valid_subject: bool = True, valid_service: bool = True, handler: Any = None, base_hook: Any = None) -> Tuple[Any, BuilderRun, Any]:
     """an abstract DataTypeBuilder built by its own constructor: (builder, the record of what it constructs, the hook)"""
     cls = ctx.cls(DTB)
     run = BuilderRun()
-    hook = _hook(ctx, run, cls.module, valid_subject, valid_service)
+    hook = _hook(ctx, run, cls.module, valid_subject, valid_service, base_hook)
     d = definition if definition is not None else definition_sym()
     try:
-        b = construct(ctx, cls, d, [], [], Sym(_kind_="print-handler"), allow_unregulated, hook=hook)
+        b = construct(ctx, cls, d, [], [], handler if handler is not None else Sym(_kind_="print-handler"), allow_unregulated, hook=hook)
     except (Raised, Unfoldable) as ex:
         raise AnalysisError("cannot evaluate the constructor of DataTypeBuilder: %s" % ex)
     return b, run, hook
 
 
-def run_builder(ctx: Ctx, script: Sequence[Tuple[str, Tuple[Any, ...]]], definition: Optional[Sym] = None, allow_unregulated: bool = False, valid_subject: bool = True, valid_service: bool = True) -> BuilderRun:
+def run_builder(ctx: Ctx, script: Sequence[Tuple[str, Tuple[Any, ...]]], definition: Optional[Sym] = None, allow_unregulated: bool = False, valid_subject: bool = True, valid_service: bool = True, handler: Any = None) -> BuilderRun:
     """
     script: the parser's callbacks in order, e.g. [("on_header_comment", ("doc",)), ("on_directive", (3, "sealed", None)),
     ("on_service_response_marker", ()), ...]; then finalize().  Expression values given as ("Rational", n) are built from the
@@ -154,7 +158,7 @@ def run_builder(ctx: Ctx, script: Sequence[Tuple[str, Tuple[Any, ...]]], definit
     hook = _hook(ctx, run, mod, valid_subject, valid_service)
     d = definition if definition is not None else definition_sym()
     try:
-        b = construct(ctx, cls, d, [], [], Sym(_kind_="print-handler"), allow_unregulated, hook=hook)
+        b = construct(ctx, cls, d, [], [], handler if handler is not None else Sym(_kind_="print-handler"), allow_unregulated, hook=hook)
     except (Raised, Unfoldable) as ex:
         raise AnalysisError("cannot evaluate the constructor of DataTypeBuilder: %s" % ex)
     env: Dict[str, Any] = {"b": b}
